@@ -269,7 +269,11 @@ impl CodeFormatter {
                     .spc_if_next()
                     .fmt(failure_message);
             }
-            Token::Braces { block, .. } | Token::Config(block) => {
+            Token::Braces { block, .. } => {
+                // The trivia in front of a block statement is its leading trivia: already emitted
+                self.format_block_without_lparen_trivia(block, false);
+            }
+            Token::Config(block) => {
                 self.format_block(block);
             }
             Token::ConfigPair { key, eq, value } => {
@@ -476,9 +480,36 @@ impl CodeFormatter {
     }
 
     fn format_block(&mut self, block: &Block) {
+        // Comments between the head of a directive, label or import and its opening brace stay in front of the brace.
+        // A line comment ends its line.
+        let mut on_new_line = false;
+        if let Some(t) = block.lparen.trivia.as_ref() {
+            for triv in &t.data {
+                match triv {
+                    Trivia::CStyle(comment) => {
+                        self.push_type(ChunkType::Comment, comment);
+                        on_new_line = false;
+                    }
+                    Trivia::CppStyle(comment) => {
+                        self.push_type(ChunkType::Comment, comment).push("\n");
+                        on_new_line = true;
+                    }
+                    Trivia::Whitespace(_) | Trivia::NewLine => (),
+                }
+            }
+        }
+        self.format_block_without_lparen_trivia(block, on_new_line);
+    }
+
+    fn format_block_without_lparen_trivia(&mut self, block: &Block, on_new_line: bool) {
         match self.options.braces.position {
             BracePosition::SameLine => self.push(&block.lparen.data).push("\n"),
-            BracePosition::NewLine => self.push("\n").push(&block.lparen.data).push("\n"),
+            BracePosition::NewLine => {
+                if !on_new_line {
+                    self.push("\n");
+                }
+                self.push(&block.lparen.data).push("\n")
+            }
         };
 
         // Since we want to deal with tokens and the trivia _after_ the token,
